@@ -106,7 +106,7 @@ Inv_C10 ==
     /\ (Rejected /\ err = "nonterm") => Unresolved(reg) = UnresolvablePaths
 
 (* passes are bounded by the number of definitions (termination, C12)      *)
-Inv_Passes == Len(hist) <= N + 2
+Inv_Passes == Len(hist) <= N + 2 + aux.extra /\ aux.extra <= 2
 
 PViol ==
   (IF Inv_C09 THEN {} ELSE {"C09"}) \cup (IF Inv_C10 THEN {} ELSE {"C10"})
